@@ -79,7 +79,11 @@ type c10Speller struct {
 	cs, ns []string
 }
 
-func (sp *c10Speller) list(ms []c10Tree) string {
+// list spells the container of level lvl (the outermost is level 1) with these members. A container of level 4 gets no
+// empty container as a member: that would be a fifth level, which the client refuses (a hand-written scenario has it).
+func (sp *c10Speller) list(ms []c10Tree) string { return sp.listAt(ms, 1) }
+
+func (sp *c10Speller) listAt(ms []c10Tree, lvl int) string {
 	if len(ms) == 0 {
 		return "e" // the empty container
 	}
@@ -90,10 +94,14 @@ func (sp *c10Speller) list(ms []c10Tree) string {
 			parts = append(parts, sp.cs[sp.nc%len(sp.cs)])
 			sp.nc++
 		case 'N':
-			parts = append(parts, sp.ns[sp.nn%len(sp.ns)])
+			it := sp.ns[sp.nn%len(sp.ns)]
+			if it == "e" && lvl >= rsMaxContainerDepth {
+				it = "p"
+			}
+			parts = append(parts, it)
 			sp.nn++
 		default:
-			parts = append(parts, sp.list(m.sub))
+			parts = append(parts, sp.listAt(m.sub, lvl+1))
 		}
 	}
 	return "c(" + strings.Join(parts, ",") + ")"
@@ -131,6 +139,9 @@ func c10NestGen(g *G) {
 		"c(x,u);c(u,c(x));c(c(u),x);c(u,c(x,c(u,c(x))))",
 		"u;c(x);c(c(c(c(u))),x);c(u,c(c(c(x))))",
 		"c(u,x,u);c(p,c(k,c(u,p,c(x,k),u),p),k);c(u,c(u,c(u,c(u),u),u),u)",
+		// a fifth level (an empty container, a container with a member) inside the fourth: refused as a whole, one
+		// warning each; its neighbours and the levels above are acknowledged as always
+		"c(u);c(u,c(x,c(u,c(e,x,c(u),u))),x)",
 	} {
 		g.Emit("c10.run o "+pl, "nested-acks")
 	}
